@@ -2,6 +2,7 @@ import Tetro.Model.Apu
 import Tetro.Spec.Apu
 import Tetro.Lemmas.ApuStatus
 import Tetro.Lemmas.ApuClk
+import Tetro.Lemmas.ApuStatusW
 /-
 C19 – channel status bits and length counters behave as on a DMG.
 
@@ -549,5 +550,165 @@ theorem c19_length_clocked_at (a : Apu) :
 /-- after New the first length clock happens in the 8192nd clock (clock counter = 8192, step 0), the
     next ones every 16384 clocks -/
 example : lenPhase (Apu.new true true) = 8193 ∧ (Apu.new true true).frameSeqTicks < 512 ∧ (8193 + 8191) % 16384 = 0 := by decide
+
+
+/-! ### Part B: the status bits -/
+
+private theorem sq_nrx4_enabled (s : Square) (fs v : Nat) :
+    (s.writeNRx4 fs v).enabled =
+      if trigOf v = true then sqTrigOk (s.setFreqHi v) else ((s.setFreqHi v).extraLenClock fs (leOf v) false).enabled := by
+  unfold Square.writeNRx4 Square.setLE Square.trigPart
+  cases ht : trigOf v
+  · simp only [Bool.false_eq_true, if_false]
+  · simp only [if_true]
+    have hok : sqTrigOk ((s.setFreqHi v).extraLenClock fs (leOf v) true) = sqTrigOk (s.setFreqHi v) := by
+      unfold Square.extraLenClock; split <;> rfl
+    rw [← hok, ← (sq_trig_fields _).2.2]
+    unfold Square.trigLenClock; split <;> rfl
+
+private theorem wv_nr34_enabled (w : Wave) (fs v : Nat) :
+    (w.writeNR34 fs v).enabled =
+      if trigOf v = true then w.dacEnabled else ((w.setFreqHi v).extraLenClock fs (leOf v) false).enabled := by
+  unfold Wave.writeNR34 Wave.setLE Wave.trigPart
+  cases ht : trigOf v
+  · simp only [Bool.false_eq_true, if_false]
+  · simp only [if_true]
+    have hok : wvTrigOk ((w.setFreqHi v).extraLenClock fs (leOf v) true) = w.dacEnabled := by
+      unfold Wave.extraLenClock wvTrigOk; split <;> rfl
+    rw [← hok, ← (wv_trig_fields _).2.2]
+    unfold Wave.trigLenClock; split <;> rfl
+
+private theorem ns_nr44_enabled (n : Noise) (fs v : Nat) :
+    (n.writeNR44 fs v).enabled =
+      if trigOf v = true then n.dacEnabled else (n.extraLenClock fs (leOf v) false).enabled := by
+  unfold Noise.writeNR44 Noise.setLE Noise.trigPart
+  cases ht : trigOf v
+  · simp only [Bool.false_eq_true, if_false]
+  · simp only [if_true]
+    have hok : nsTrigOk (n.extraLenClock fs (leOf v) true) = n.dacEnabled := by
+      unfold Noise.extraLenClock nsTrigOk; split <;> rfl
+    rw [← hok, ← (ns_trig_fields _).2.2]
+    unfold Noise.trigLenClock; split <;> rfl
+
+/-- the conditions under which a trigger of channel 1 leaves the channel on: DAC enabled and, if the
+    sweep shift is non-zero, the immediate sweep calculation on the new frequency does not overflow -/
+def Ch1TriggerOk (a : Apu) (w : Nat) : Prop :=
+  a.ch1.dacEnabled = true ∧
+  (a.ch1.hasSweep = true → a.ch1.sweepShift > 0 →
+    sweepCalc a.ch1.sweepIncrease (a.ch1.frequency % 256 + (w % 8) * 256) a.ch1.sweepShift ≤ 2047)
+
+private theorem sqTrigOk_iff (s : Square) : sqTrigOk s = true ↔
+    (s.dacEnabled = true ∧ (s.hasSweep = true → s.sweepShift > 0 → sweepCalc s.sweepIncrease s.frequency s.sweepShift ≤ 2047)) := by
+  unfold sqTrigOk
+  cases s.dacEnabled <;> cases s.hasSweep <;> by_cases h : s.sweepShift > 0 <;> simp [h]
+
+/-- **C19 (on only by trigger).**  For EVERY state and every operation of a history (a bus write or a
+    machine cycle): if a channel's status bit goes from 0 to 1, the operation is a write to that
+    channel's NRx4 with bit 7 set, made while sound is on, the channel's DAC is enabled and – for
+    channel 1 – the sweep calculation on the new frequency does not overflow.  (Being true for every
+    state it is in particular an invariant of all histories.) -/
+theorem c19_on_only_by_trigger (a : Apu) (op : Op) :
+    (a.ch1.enabled = false → (a.step op).ch1.enabled = true →
+      ∃ v, op = .write 0xFF14 v ∧ trigOf (v % 256) = true ∧ a.control.on = true ∧ Ch1TriggerOk a (v % 256)) ∧
+    (a.ch2.enabled = false → (a.step op).ch2.enabled = true →
+      ∃ v, op = .write 0xFF19 v ∧ trigOf (v % 256) = true ∧ a.control.on = true ∧ a.ch2.dacEnabled = true) ∧
+    (a.ch3.enabled = false → (a.step op).ch3.enabled = true →
+      ∃ v, op = .write 0xFF1E v ∧ trigOf (v % 256) = true ∧ a.control.on = true ∧ a.ch3.dacEnabled = true) ∧
+    (a.ch4.enabled = false → (a.step op).ch4.enabled = true →
+      ∃ v, op = .write 0xFF23 v ∧ trigOf (v % 256) = true ∧ a.control.on = true ∧ a.ch4.dacEnabled = true) := by
+  cases op with
+  | cycle =>
+    have e : a.step Op.cycle = a.endMachineCycle := rfl
+    rw [e]
+    have h := status_endMachineCycle a
+    generalize a.endMachineCycle = b at h
+    obtain ⟨g1, g2, g3, g4⟩ := h
+    refine ⟨fun h0 h1 => ?_, fun h0 h1 => ?_, fun h0 h1 => ?_, fun h0 h1 => ?_⟩
+    · have this : a.ch1.enabled = true := g1 h1
+      rw [h0] at this; cases this
+    · have this : a.ch2.enabled = true := g2 h1
+      rw [h0] at this; cases this
+    · have this : a.ch3.enabled = true := g3 h1
+      rw [h0] at this; cases this
+    · have this : a.ch4.enabled = true := g4 h1
+      rw [h0] at this; cases this
+  | write ad v =>
+    have hs := status_writeB a ad (v % 256)
+    have e : a.step (Op.write ad v) = a.writeB ad (v % 256) := rfl
+    rw [e]
+    refine ⟨fun h0 h1 => ?_, fun h0 h1 => ?_, fun h0 h1 => ?_, fun h0 h1 => ?_⟩
+    · have h1' : (a.writeB ad (v % 256)).ch1.enabled = true := h1
+      by_cases e : ad = 0xFF14
+      · subst e
+        rw [writeB_FF14] at h1'
+        unfold writeNR14 at h1'
+        cases hon : a.control.on
+        · rw [hon] at h1'; simp only [Bool.not_false, if_true] at h1'; rw [h0] at h1'; cases h1'
+        · rw [hon] at h1'; simp only [Bool.not_true, Bool.false_eq_true, if_false] at h1'
+          have h2 : (a.ch1.writeNRx4 a.frameSeqTicks (v % 256)).enabled = true := h1'
+          rw [sq_nrx4_enabled] at h2
+          cases ht : trigOf (v % 256)
+          · rw [ht] at h2; simp only [Bool.false_eq_true, if_false] at h2
+            have h3 : a.ch1.enabled = true := Square.en_extraLenClock (a.ch1.setFreqHi (v % 256)) _ _ _ h2
+            rw [h0] at h3; cases h3
+          · rw [ht] at h2; simp only [if_true] at h2
+            refine ⟨v, rfl, ht, rfl, ?_⟩
+            exact (sqTrigOk_iff _).mp h2
+      · have := hs.1 e h1'; rw [h0] at this; cases this
+    · have h1' : (a.writeB ad (v % 256)).ch2.enabled = true := h1
+      by_cases e : ad = 0xFF19
+      · subst e
+        rw [writeB_FF19] at h1'
+        unfold writeNR24 at h1'
+        cases hon : a.control.on
+        · rw [hon] at h1'; simp only [Bool.not_false, if_true] at h1'; rw [h0] at h1'; cases h1'
+        · rw [hon] at h1'; simp only [Bool.not_true, Bool.false_eq_true, if_false] at h1'
+          have h2 : (a.ch2.writeNRx4 a.frameSeqTicks (v % 256)).enabled = true := h1'
+          rw [sq_nrx4_enabled] at h2
+          cases ht : trigOf (v % 256)
+          · rw [ht] at h2; simp only [Bool.false_eq_true, if_false] at h2
+            have h3 : a.ch2.enabled = true := Square.en_extraLenClock (a.ch2.setFreqHi (v % 256)) _ _ _ h2
+            rw [h0] at h3; cases h3
+          · rw [ht] at h2; simp only [if_true] at h2
+            exact ⟨v, rfl, ht, rfl, ((sqTrigOk_iff _).mp h2).1⟩
+      · have := hs.2.1 e h1'; rw [h0] at this; cases this
+    · have h1' : (a.writeB ad (v % 256)).ch3.enabled = true := h1
+      by_cases e : ad = 0xFF1E
+      · subst e
+        rw [writeB_FF1E] at h1'
+        unfold writeNR34 at h1'
+        cases hon : a.control.on
+        · rw [hon] at h1'; simp only [Bool.not_false, if_true] at h1'; rw [h0] at h1'; cases h1'
+        · rw [hon] at h1'; simp only [Bool.not_true, Bool.false_eq_true, if_false] at h1'
+          have h2 : (a.ch3.writeNR34 a.frameSeqTicks (v % 256)).enabled = true := h1'
+          rw [wv_nr34_enabled] at h2
+          cases ht : trigOf (v % 256)
+          · rw [ht] at h2; simp only [Bool.false_eq_true, if_false] at h2
+            have h3 : a.ch3.enabled = true := Wave.en_extraLenClock (a.ch3.setFreqHi (v % 256)) _ _ _ h2
+            rw [h0] at h3; cases h3
+          · rw [ht] at h2; simp only [if_true] at h2
+            exact ⟨v, rfl, ht, rfl, h2⟩
+      · have := hs.2.2.1 e h1'; rw [h0] at this; cases this
+    · have h1' : (a.writeB ad (v % 256)).ch4.enabled = true := h1
+      by_cases e : ad = 0xFF23
+      · subst e
+        rw [writeB_FF23] at h1'
+        unfold writeNR44 at h1'
+        cases hon : a.control.on
+        · rw [hon] at h1'; simp only [Bool.not_false, if_true] at h1'; rw [h0] at h1'; cases h1'
+        · rw [hon] at h1'; simp only [Bool.not_true, Bool.false_eq_true, if_false] at h1'
+          have h2 : (a.ch4.writeNR44 a.frameSeqTicks (v % 256)).enabled = true := h1'
+          rw [ns_nr44_enabled] at h2
+          cases ht : trigOf (v % 256)
+          · rw [ht] at h2; simp only [Bool.false_eq_true, if_false] at h2
+            have h3 : a.ch4.enabled = true := Noise.en_extraLenClock _ _ _ _ h2
+            rw [h0] at h3; cases h3
+          · rw [ht] at h2; simp only [if_true] at h2
+            exact ⟨v, rfl, ht, rfl, h2⟩
+      · have := hs.2.2.2 e h1'; rw [h0] at this; cases this
+
+/-- non-vacuity: after New all channels are off; NR22 := F0 (DAC on) then NR24 := 80 (trigger) switches channel 2 on -/
+example : (Apu.new true true).ch2.enabled = false ∧
+    (((Apu.new true true).step (.write 0xFF17 0xF0)).step (.write 0xFF19 0x80)).ch2.enabled = true := by decide
 
 end Tetro.C19
